@@ -449,3 +449,17 @@ Proof.
   destruct (s_of_portable_ok p Hi Hw (p_from_checkpoint_bytes prof c p E Hc)) as [HS HA].
   split; [exact HS|]. rewrite HA. exact Ha.
 Qed.
+
+Lemma cat_wf l h : V2wf l -> V2wf h -> wlanesb (cat l h) = true.
+Proof. intros [? ?] [? ?]. apply wlanes_intro; assumption. Qed.
+Lemma SCwf_Hwf c : SCwf c -> Hwf (sabs_core c).
+Proof.
+  intros (? & ? & ? & ? & ? & ? & ? & ?). unfold Hwf, sabs_core, sc_port, to_h. cbn [hv0 hv1 hmul0 hmul1 v0 v1 mul0 mul1].
+  repeat split; apply cat_wf; assumption.
+Qed.
+
+Lemma rotl64_32_w64b a : w64b a = true -> w64b (rotl64_32 a) = true.
+Proof.
+  intros H. wf64 H. unfold rotl64_32, shl64.
+  match goal with |- w64b ?e = true => replace e with (t64 e); [apply t64_w64b|unfold t64, M64; bb] end.
+Qed.
